@@ -82,7 +82,7 @@ impl World {
             .collect();
         let uncles = (0..3u64)
             .map(|i| {
-                let header = HeaderBuilder::default().number(5 + i).timestamp(77 + i).nonce(i as u128 + 9).build();
+                let header = HeaderBuilder::default().number(5 + i).epoch(ckb_types::core::EpochNumberWithFraction::new(1, 1, 10).full_value()).timestamp(77 + i).nonce(i as u128 + 9).build();
                 packed::UncleBlock::new_builder().header(header.data()).build().into_view()
             })
             .collect();
@@ -127,6 +127,7 @@ impl World {
         let good_eh = ckb_types::core::ExtraHashView::new(uncles_vec.calc_uncles_hash(), extension.as_ref().map(|e| e.calc_raw_data_hash())).extra_hash();
         let header = HeaderBuilder::default()
             .number(1u64)
+            .epoch(ckb_types::core::EpochNumberWithFraction::new(0, 1, 10).full_value())
             .timestamp(12345u64)
             .transactions_root(root_hash.clone())
             .proposals_hash(if f("ph") == "ok" { good_ph } else { Byte32::from_slice(&[0xDDu8; 32]).unwrap() })
